@@ -16,6 +16,9 @@ def handleProg (is : List Instruction) (out : Sexp) : CaseResult :=
   let agree := mOut == out
   let liteDiffers := modelProg envLite codeSubst is != mOut
   let covered := coveredB p.cals
+  -- outside the domain of the faithful-substitution theorems: some calibration body holds a nested definition
+  -- that is not admitted (`nestedOkB`: its unvisited positions mention the enclosing calibration's variables)
+  let nestedExcluded := nestedExcludedB p.cals
   let maxDepth := (p.instructions.map (depthOf env p.cals 6 [])).foldl max 0
   -- the specification evaluated on the implementation's output
   let specTags : List String × Bool × Bool :=
@@ -58,17 +61,21 @@ def handleProg (is : List Instruction) (out : Sexp) : CaseResult :=
             | .calibrationDefinition _ _ | .measureCalibrationDefinition _ _ => true | _ => false)
           let idem := again == .atom "same" || newCals.length != p.cals.cals.length + p.cals.mcals.length
           let kf := !faithful && agree && formalElsewhere && sameMap && hoisted && fix && kept && declsIn && idem
+          -- the reference expansion makes no claim outside the theorems' domain (the implementation must still
+          -- be what the mirroring model says, and every other clause must hold)
+          let excused := !faithful && agree && nestedExcluded && !formalElsewhere
           ((if sameMap then [] else ["FAIL-with-map-differs"]) ++
            (if hoisted then [] else ["FAIL-definition-left-in-body"]) ++
            (if fix then [] else ["FAIL-not-a-fixpoint"]) ++
            (if kept then [] else ["FAIL-unmatched-not-kept"]) ++
            (if declsIn then [] else ["FAIL-declaration-not-hoisted"]) ++
            (if idem then [] else ["FAIL-second-expansion-differs"]) ++
-           (if faithful then [] else ["FAIL-not-the-specified-substitution"]) ++
+           (if faithful || excused then [] else ["FAIL-not-the-specified-substitution"]) ++
+           (if excused then ["excluded-nested-definition"] else []) ++
            (if kf then ["kf:C17/formal-target-in-other-instructions"] else []) ++
            (if defs.length > p.definitions.length then ["hoisted-new-definition"] else []) ++
            outKindTags { instructions := body },
-           sameMap && hoisted && fix && kept && declsIn && idem && faithful, true)
+           sameMap && hoisted && fix && kept && declsIn && idem && (faithful || excused), true)
       | .list [.atom "recursive", _] => (["recursive"], sameMap, true)
       | _ => (["impl-error"], false, true)
     | _ => (["undecodable-output"], false, false)
@@ -99,16 +106,19 @@ def handleExpand (is : List Instruction) (i : Instruction) (prev : List Instruct
   let formalElsewhere := p.cals.mcals.any (fun c =>
     c.instructions.any (fun i => !formalCoveredB c.identifier.target i))
   let kf := basic && !faithful && agree && formalElsewhere
+  let nestedExcluded := nestedExcludedB p.cals
+  let excused := basic && !faithful && agree && nestedExcluded && !formalElsewhere
   let kindTag := match out with
     | .list [.atom "ok", .list [.atom "none"], _] => "expand-none"
     | .list [.atom "ok", _, _] => "expand-some"
     | .list [.atom "recursive", _, _] => "expand-recursive"
     | _ => "expand-error"
-  { agree := agree, specOk := basic && faithful, nontrivial := !noMatchB env p.cals i,
+  { agree := agree, specOk := basic && (faithful || excused), nontrivial := !noMatchB env p.cals i,
     tags := ["expand", kindTag, s!"prev{min prev.length 3}"] ++
       (if (prev.map keyText).contains (keyText i) then ["in-breadcrumbs"] else []) ++
       (if basic then [] else ["FAIL-expand-basic"]) ++
-      (if faithful then [] else ["FAIL-not-the-specified-substitution"]) ++
+      (if faithful || excused then [] else ["FAIL-not-the-specified-substitution"]) ++
+      (if excused then ["excluded-nested-definition"] else []) ++
       (if kf then ["kf:C17/formal-target-in-other-instructions"] else []),
     detail := s!"model={mOut} impl={out}" }
 
